@@ -321,7 +321,13 @@ def run_stream(exe, items, workdir, repo, steps=200000, mem=5000, stack=200, tag
                 results[idx]["res"] = done[idx]
             if not ended and results[idx]["exited"] is None:
                 m = re.search(r"ERROR: AddressSanitizer: (\S+)", body_main) or re.search(r"runtime error: ([^\n]*)", body_main)
-                results[idx]["crash"] = body_main[-6000:] if (m or rc != 0) else "harness died without a sanitizer report (rc=%s)" % rc
+                # keep the HEAD of the sanitizer report (error kind + first stack): a use-after-free report with its three stacks and the
+                # shadow map is longer than any tail window, and the tail alone was classified as `died` (another property's business)
+                hp = body_main.find("ERROR: AddressSanitizer")
+                if hp < 0:
+                    hp = body_main.find("runtime error: ")
+                rtext = (body_main[max(0, hp - 200):][:7000] + "\n[...]\n" + body_main[-1500:]) if hp >= 0 else body_main[-6000:]
+                results[idx]["crash"] = rtext if (m or rc != 0) else "harness died without a sanitizer report (rc=%s)" % rc
                 if not results[idx]["crash"].strip():
                     results[idx]["crash"] = "harness died (rc=%s), no output" % rc
         if last_idx is None:
